@@ -16,6 +16,15 @@ import (
 // spare capacity are visible), maps in sorted key order and the pointer
 // sharing graph (first visit gets an id, later visits print a back reference).
 // Two equal snapshots mean structural identity of everything reachable.
+// scratchField names unexported evaluation scratch inside HCL's own AST nodes: the
+// parser library memoises the value of a splat's anonymous symbol per evaluation
+// context (set and cleared again by SplatExpr.Value under its own lock, leaving an
+// empty map where nil was). It is not structure the caller supplied, and HCL guards
+// it itself, so it is left out of snapshots.
+func scratchField(t reflect.Type, field string) bool {
+	return t.PkgPath() == "github.com/hashicorp/hcl/v2/hclsyntax" && t.Name() == "AnonSymbolExpr" && (field == "values" || field == "valuesLock")
+}
+
 func Snapshot(v interface{}) string {
 	s := &snap{ids: map[uintptr]int{}, withCap: true, withIDs: true}
 	s.walk(reflect.ValueOf(v), 0)
@@ -161,6 +170,10 @@ func (s *snap) walk(v reflect.Value, depth int) {
 				s.sb.WriteString(",")
 			}
 			s.sb.WriteString(t.Field(i).Name + ":")
+			if scratchField(t, t.Field(i).Name) {
+				s.sb.WriteString("<scratch>")
+				continue
+			}
 			s.walk(v.Field(i), depth+1)
 		}
 		s.sb.WriteString("}")
